@@ -5,7 +5,7 @@ execution tree.
 
 Code modelled (mistral/):
   engine/default_engine.py   rerun_workflow            -> `rerunOp` (one transaction)
-  engine/workflow_handler.py rerun_workflow            -> PAUSED => no-op; integrity jobs
+  engine/workflow_handler.py rerun_workflow            -> PAUSED => no-op; SUCCESS task => refused; integrity jobs
   engine/workflows.py        Workflow.rerun, _recursive_rerun, _continue_workflow, set_state
                                                        -> `chain`, `reactivate`, `rerunOp`
   engine/task_handler.py     mark_task_running, skip_task, run_task
@@ -191,6 +191,8 @@ def rerunOp (w : World) (t : Nat) (reset skip : Bool) : Except Err World :=
     | none => .error .noTask
     | some wf =>
       if wf.state == .PAUSED then .ok w else
+      -- workflow_handler.rerun_workflow: a succeeded task is refused before the workflow is touched
+      if tk.state == .SUCCESS then .error .succeeded else
       match reactivate w tk.wf with
       | .error e => .error e
       | .ok w1 =>
@@ -212,13 +214,15 @@ def resetActs (reset : Bool) (acts : List Act) : List Act :=
     if reset || (a.accepted && (a.state == .ERROR || a.state == .CANCELLED))
     then { a with accepted := false } else a
 
-def accIdx (acts : List Act) : List Nat :=
-  (acts.filter fun a => a.accepted && isCompleted a.state).map (·.idx)
 def unaccIdx (acts : List Act) : List Nat :=
   (acts.filter fun a => !a.accepted && isCompleted a.state).map (·.idx)
-/-- index whose only completed executions are not accepted -/
+/-- `taken`: the index has an execution whose result counts (accepted) or that is in progress
+    (RUNNING/DELAYED/IDLE); such an index is never started again -/
+def taken (acts : List Act) (i : Nat) : Bool :=
+  acts.any fun a => a.idx == i && (a.accepted || isRunning a.state || isIdle a.state)
+/-- index with a completed, unaccepted execution that is not `taken` -/
 def isCand (acts : List Act) (i : Nat) : Bool :=
-  (unaccIdx acts).contains i && !(accIdx acts).contains i
+  (unaccIdx acts).contains i && !taken acts i
 def nextStart (acts : List Act) : Nat :=
   (acts.filter fun a => a.accepted || isRunning a.state || isIdle a.state).length
 
@@ -227,7 +231,7 @@ def nextIndexes (acts : List Act) (count : Nat) (capacity : Option Nat) : List N
   let cands := (List.range count).filter (isCand acts)
   let indices :=
     match cands.getLast? with
-    | some m => cands ++ List.range' (m + 1) (count - (m + 1))
+    | some m => cands ++ (List.range' (m + 1) (count - (m + 1))).filter fun i => !taken acts i
     | none => List.range' (nextStart acts) (count - nextStart acts)
   match capacity with
   | none => indices
@@ -243,6 +247,9 @@ def startTask (w : World) (m : Start) : Except Err World :=
   | none => .error .noTask
   | some x =>
     if x.state == .SUCCESS then .error .succeeded else
+    -- already started by another request: RUNNING with an execution that has not completed
+    if x.state == .RUNNING && x.acts.any (fun a => !isCompleted a.state)
+    then .ok { w with starts := w.starts.erase m } else
     let acts1 := resetActs m.reset x.acts
     let newIdx := match x.spec.items with
                   | none => [0]
